@@ -864,6 +864,10 @@ def role_check(view, ev):
         desc = "%s.axpy(%s, %s)" % (R(ev["n"]["obj"]), R(ev["src_node"]), render(ev["alpha"]))
         ok = vec(d) and vec(s) and d[1] == s[1] and (d[2], s[2]) in (("sol", "cor"), ("def", "tmp"))
         return ok, desc, "sol += w*cor or def -= w*tmp on one level"
+    if k == "scale":
+        d, s = ev["dst"], ev["src"]
+        desc = "%s.scale(%s, %s)" % (R(ev["n"]["obj"]), R(ev["src_node"]), render(ev["alpha"]))
+        return vec(d, "sol") and vec(s, "cor") and d[1] == s[1], desc, "sol := w*cor on one level (admissible only where the solution is zero: decided by E8.sol-epoch)"
     if k == "copy":
         d, s = ev["dst"], ev["src"]
         desc = "%s.copy(%s)" % (R(ev["dst_node"]), R(ev["src_node"]))
@@ -1170,6 +1174,11 @@ def check_apply(ck, view, inst):
             want = [h for h, c in CYCLES.items() if c == m]
             ck.ob("E13.cycle-dispatch", "%s/case %s" % (inst, m), got == want and len(evs_m) == 1,
                   "MultiGridCycle::%s calls %s" % (m, ", ".join(x["helper"] for x in evs_m)), view.fn.file, evs_m[0]["n"].get("l"))
+    # the decision table above is read from the statement structure: a case must not fall through into the next one
+    for sw_, a_, b_ in norm_c08.switch_fallthroughs(view.fn.body):
+        lab_ = lambda c_: render(strip(c_.get("v") or {})).rsplit("::", 1)[-1] if c_.get("k") == "Case" else "default"
+        ck.ob("E13.cycle-dispatch", "%s/case %s falls through" % (inst, lab_(a_)), False,
+              "`case %s` (line %s) falls through into `case %s`: both cycle functions run for %s" % (lab_(a_), a_.get("l"), lab_(b_), lab_(a_)), view.fn.file, a_.get("l"))
     # hand-over
     rhs_in = [e for e, ev in evs if ev["kind"] == "copy" and vec(ev["dst"], "rhs") and ev["dst"][1] == ("top", 0) and ev["src"] == ("param", "vec_def")]
     cor_out = [e for e, ev in evs if ev["kind"] == "copy" and ev["dst"] == ("param", "vec_cor") and vec(ev["src"], "sol") and ev["src"][1] == ("top", 0)]
@@ -1437,6 +1446,9 @@ def check_adapt_omega(ck, view, inst):
                         form = (num, den)
                 for m in modes:
                     table.setdefault(m, []).append((form, w, render(val)))
+    for sw_, a_, b_ in norm_c08.switch_fallthroughs(view.fn.body):
+        if is_sel(view.value(sw_.get("c") or {})):
+            ck.ob(rule, "%s/case falls through" % inst, False, "a case of switch(_adapt_cgc) (line %s) falls through into the next one: the later step length overwrites the earlier" % a_.get("l"), view.fn.file, a_.get("l"))
     if not wvars:
         problems.append("no `vec_sol.axpy(vec_cor, <local step length>)` found")
     for p in problems:
@@ -1615,6 +1627,56 @@ def check_transfer_buffer(ck, short, fns, inl, used_methods):
                         av = view.value(a)
                         if mgmodel.is_this_member(av):
                             bufs.add(strip(av)["n"])
+    # every creation site of the buffer creates the vector that the consumers need: the coarse-side vector, i.e. the left
+    # vector of the restriction / truncation matrix or the right vector of the prolongation matrix
+    GOOD = {("rest", "l"), ("trunc", "l"), ("prol", "r")}
+    cls0 = next((g.cls for gs in fns.values() for g in gs), None)
+    for buf in sorted(bufs):
+        sites = []
+        for gs in fns.values():
+            for g in gs:
+                gv = FnView(g)
+                for ini in (g.d.get("inits") or []):
+                    if ini.get("member") == buf and ini.get("init") is not None:
+                        sites.append((g, gv, ini["init"], ini.get("l")))
+                for n in walk(g.body):
+                    if n.get("k") in ("Assign", "OpCall") and n.get("op") == "=":
+                        lhs, rhs = (n["lhs"], n["rhs"]) if n["k"] == "Assign" else ((n["a"][0], n["a"][1]) if len(n.get("a", [])) == 2 else (None, None))
+                        if lhs is not None and mgmodel.is_this_member(gv.value(lhs), buf):
+                            sites.append((g, gv, rhs, n.get("l")))
+        seen_sites = {}
+        for g, gv, expr, line in sites:
+            def creations(n_, depth=0):
+                out_ = []
+                for x in walk(gv.value(n_)):
+                    if x.get("k") == "MCall" and x.get("n") in ("create_vector_l", "create_vector_r"):
+                        out_.append(x)
+                    elif x.get("k") == "Ref" and x.get("dk") == "local" and gv.is_const_local(x["d"]) and depth < 4:
+                        out_ += creations(gv.locals[x["d"]]["init"], depth + 1)       # named temporary moved into the member
+                return out_
+            created = creations(expr)
+            if not created:
+                continue        # moved / converted from another object's buffer
+            c0 = created[0]
+            ov = gv.value(c0.get("obj") or {})
+            kind = None
+            if ov.get("k") == "MCall" and ov.get("n", "").startswith("get_mat_"):
+                kind = ov["n"][len("get_mat_"):]
+            elif mgmodel.is_this_member(ov) and "_mat_" in ov.get("n", ""):
+                kind = ov["n"].split("_mat_")[-1]
+            side = c0["n"][-1]
+            nm = "%s::%s" % (short, "constructor" if g.d.get("ctor") else g.name)
+            skey = "%s/%s creation" % (nm, buf)
+            seen_sites[skey] = seen_sites.get(skey, 0) + 1
+            if seen_sites[skey] > 1:
+                skey += "#%d" % seen_sites[skey]
+            if kind is None:
+                ck.incomplete(rule, "%s: %s is created from %s, which is not a matrix of the wrapped transfer" % (skey, buf, render(c0)[:60]))
+                continue
+            ck.ob(rule, skey, (kind, side) in GOOD,
+                  "%s is created as the %s vector of the %s matrix (the coarse-side vector)" % (buf, "left" if side == "l" else "right", kind) if (kind, side) in GOOD else
+                  "%s is created by `%s`: the %s vector of the %s matrix has the FINE dimension, but rest / prol use %s as the coarse-side operand (wrong size whenever fine and coarse dimensions differ)" % (
+                      buf, render(c0)[:70], "left" if side == "l" else "right", kind, buf), g.file, line)
     comp = fns.get("compile", [])
     if not bufs:
         ck.incomplete(rule, "%s: no member buffer is handed to the wrapped transfer (the muxer branches vanished?)" % short)
@@ -1830,7 +1892,7 @@ def run(tier):
     ck.rule("E2.w-counters", "every subscript of the W-cycle peak-counter array _counters (search, inner reset, increment, sanity check) is an absolute level index within [top_level, last_level], and the reset at cycle entry covers, as symbolic intervals in top_level/last_level, every counter any later statement can touch; breaks on the second W-cycle application with top_level > 0 (stale counters: wrong peak order / sanity abort)", 5)
     ck.rule("E1.factory-forwards", "the factory Solver::new_multigrid(hierarchy, cycle, top_level, crs_level) uses every one of its parameters and hands each, positionally, to the MultiGrid constructor parameter of its own name (a dropped trailing argument is silently replaced by the constructor's default: a multigrid requested for the level range [top, crs] runs on [top, coarsest]); breaks for every explicit crs_level other than the coarsest level", 1)
     ck.rule("E1.transfer-clone-mode", "clone(mode) of a transfer operator class (LAFEM::Transfer, Global::Transfer) passes the requested clone mode to the clone() of every operator member (prolongation, restriction and truncation matrix; the wrapped transfer): siblings cloned with different modes share / copy their arrays differently, so after an in-place re-assembly of the original a Shallow clone restricts with the old R and prolongates with the new P; breaks for every non-default clone mode followed by a value update", 4)
-    ck.rule("E8.transfer-buffer", "Global::Transfer: the member buffer that rest / prol / rest_send / prol_recv hand to the wrapped transfer as coarse-side operand on the muxer branches is (re)created from the current operator on every path through compile(); breaks when a transfer object is re-assembled for another coarse dimension and compiled again (stale buffer size on processes whose coarse muxer is child)", 1)
+    ck.rule("E8.transfer-buffer", "Global::Transfer: the member buffer that rest / prol / rest_send / prol_recv hand to the wrapped transfer as coarse-side operand on the muxer branches is (re)created from the current operator on every path through compile(); breaks when a transfer object is re-assembled for another coarse dimension and compiled again (stale buffer size on processes whose coarse muxer is child); every creation site of the buffer (constructors, compile) creates the coarse-side vector: the left vector of the restriction / truncation matrix or the right vector of the prolongation matrix", 3)
     ck.rule("E1.transfer-method-chain", "the transfer methods the cycle calls on a level's transfer operator (rest / rest_send / prol / prol_recv, taken from the events of _apply_rest / _apply_prol) reach the local operation of the same kind in every branch of every transfer class a multigrid can be built on: Global::Transfer calls only rest() resp. prol() of the wrapped transfer, on every normal path (direct branch, muxer parent/child branch, ghost send/recv twins), and LAFEM::Transfer applies the matrix member named for the kind; breaks on processes whose coarse muxer is child and parent (the defect is restricted with the truncation matrix: still convergent, different linear map)", 6)
     ck.rule("E8.config-cache", "a member of MultiGrid that caches a value computed from a configuration field (a member that a non-constructor member function assigns from its parameters: _top_level, _crs_level, _cycle, _adapt_cgc) and that apply() reads is reassigned, on every path, by every function that modifies that field — or the value is not cached at all; breaks for set_levels()/set_cycle()/... on an initialised object followed by apply() (the cycle runs with the stale cached value)", 4)
     ck.rule("E6.adapt-omega", "adaptive coarse grid correction: MinEnergy w = <def,cor>/<A cor,cor>, MinDefect w = <def,A cor>/<A cor,A cor> with tmp = A*cor of the same level", 2)
